@@ -340,8 +340,17 @@ func (w *Worktree) getCommitFromCheckoutOptions(opts *CheckoutOptions) (plumbing
 			return plumbing.ZeroHash, fmt.Errorf("%w: tag target %q", object.ErrUnsupportedObject, o.TargetType)
 		}
 
-		return o.Target, nil
+		// The tagged commit is held to the same standard as a commit
+		// given directly.
+		return w.getCommitFromCheckoutOptions(&CheckoutOptions{Hash: o.Target})
 	case *object.Commit:
+		// The commit must be materialisable. Failing here, before Checkout
+		// writes anything, keeps a refused checkout from leaving a moved
+		// HEAD or a new branch behind when the tree is missing.
+		if _, err := o.Tree(); err != nil {
+			return plumbing.ZeroHash, err
+		}
+
 		return o.Hash, nil
 	}
 
